@@ -111,7 +111,11 @@ def append_attributes(*args: Tuple[str, Any]) -> Dict:
     result: Dict = {}
 
     for key, value in args:
-        if key in result:
+        # NOTE: `None` and `False` mean "no value" (such attributes are not rendered), so they add nothing
+        #       when joined with other values, e.g. `{% html_attrs attrs class=extra_class %}` with `extra_class=None`
+        if key in result and result[key] is not None and result[key] is not False:
+            if value is None or value is False:
+                continue
             # NOTE: The values do not have to be strings, e.g. `{% html_attrs attrs data-count=count %}`
             # NOTE: Each value is escaped here, unless it is already safe (e.g. `class="{{ cls }} btn"`),
             #       so that a safe value joined with an unsafe one is not escaped for a second time.
